@@ -225,6 +225,9 @@ def run(chk):
         chk.sample({"files": files, "features": sorted(p.features)}, limit=3)
     probe.stop()
     tie.finish(stats)
+    if stats["discarded"] > 0.2 * (stats["discarded"] + stats["programs"]) + 3:
+        chk.tie_break("generator-domain", "%d of %d generated projects no longer assemble or analyse without diagnostics (normally < 6%%)" % (
+                      stats["discarded"], stats["discarded"] + stats["programs"]), {"stats": stats})
     chk.cov["rule"] = ("the C16 project generator (shadowed names in nested scopes, dotted/super paths, macros, untaken branches, interpolation, "
                        "imports with and without `as`, comments and plain strings that mention the names); per project up to %d identifier "
                        "occurrences (every role first); at each occurrence where prepareRename offers: rename to a globally fresh name and, where one "
